@@ -169,9 +169,27 @@ func worker(scenarios []Scenario, sh string, budget time.Duration) {
 		}
 		outcomes := map[string]bool{}
 		var obs any
-		body := func(s *vrt.Sched) { obs = sc.Body(s) }
+		// the scenario body (the sequential set-up history on the real object) may itself panic on
+		// changed code: that is a verdict about the code, not a crash of the checker
+		setupPanic := ""
+		body := func(s *vrt.Sched) {
+			setupPanic = ""
+			defer func() {
+				if p := recover(); p != nil {
+					setupPanic = fmt.Sprint(p)
+				}
+			}()
+			obs = sc.Body(s)
+		}
 		var vio *violation
 		judge := func(x *vrt.Exec) *Fail {
+			if setupPanic != "" {
+				cls := setupPanic
+				if len(cls) > 60 {
+					cls = cls[:60]
+				}
+				return &Fail{"panic-in-setup:" + strings.ReplaceAll(cls, " ", "_"), "the sequential set-up calls of the scenario (made before any thread starts) panicked: " + setupPanic}
+			}
 			if x.Races > 0 {
 				sig := "data-race"
 				if sc.RaceSig != "" {
